@@ -73,6 +73,9 @@ class RLab:
                 self.comp[w] = {nm if nm is not None else f"\x00silent:{self.geo.name}:{w}": Fraction(1)}
             else:
                 self.comp[w] = {}
+        # has the well ever held liquid with a named component? (a well that never did holds, as far as the
+        # digital twin can know, only liquid of unknown origin - and the twin's fractions say exactly that)
+        self.ever_known = {w: self.vol[w] > 0 for w in self.vol}
         self.nround = {w: 0 for w in self.vol}
         self.removed_from = set()
         self.added_to = set()
@@ -125,8 +128,14 @@ class Robot:
             lab.added_to.add(w)
         if v > 0 and self.track_comp:
             if comp is None:
-                tainted = True
+                # liquid the twin was told nothing about: the twin leaves the well's fractions as they are. That is
+                # still the truth if the well has never held a named component (all fractions are and stay 0: its
+                # content is, correctly, entirely of unknown origin); otherwise the twin is from now on knowingly
+                # out of step with the well (tainted)
+                tainted = tainted or lab.ever_known[w] or (w in lab.taint)
                 comp = {}
+            if comp:
+                lab.ever_known[w] = True
             mixed = {}
             if old > 0:
                 for k, f in lab.comp[w].items():
@@ -222,7 +231,7 @@ class Robot:
             comp, tainted = self.tip[1], self.tip[2]
         elif op == "dispense":
             comp = prov.get("comp")
-            tainted = comp is None
+            tainted = False  # for comp None, _add decides whether the twin can still be right about the well
         self._add(lab, w, vol, comp, tainted, True)
         return [(f[1], w, vol)]
 
